@@ -669,6 +669,84 @@ def r19_11(chk, P):
                             'the end of the stream succeeds plainly and fails lapped'))
     return n
 
+
+def r19_12(chk, P, rule='R19.12'):
+    chk.rule(rule, 'the first page of the next link is never dropped: in vorbisfile.c, once a page fetched in the same function has been '
+             'recognised as the beginning of a logical stream (true edge of ogg_page_bos on it), no end-of-file return (OV_EOF) is reachable before the '
+             'page was submitted (ogg_stream_pagein), handed to the header fetch, or the input was repositioned (_seek_helper) -- '
+             'except on a handle tested to be non-seekable, which cannot go back.  The lapped seeks and ov_crosslap stop at a link '
+             'boundary (span flag 0) and answer OV_EOF; with the page gone every later read takes the rest of that link for a '
+             'foreign multiplexed stream and skips it')
+    n = 0
+    # the obligation ends when the page is kept -- or when the next page is fetched into the object (a page the function decided to
+    # skip as foreign and read past is not the case described here)
+    KEEP = {'ogg_stream_pagein', '_seek_helper', '_fetch_headers', 'ogg_sync_reset', '_get_next_page', '_get_prev_page', '_get_prev_page_serial'}
+    for F in P.functions():
+        if not F.file.endswith('vorbisfile.c') or F.entry is None:
+            continue
+        fetched = set()
+        for c in F.calls():
+            if F.ex[c]['callee'].get('d') in ('_get_next_page', '_get_prev_page', '_get_prev_page_serial') and len(F.ex[c]['c']) > 1:
+                a = F.ex[F.strip_casts(F.ex[c]['c'][1])]
+                if a['k'] == 'un' and a['op'] == '&':
+                    t = F.ex[F.strip_casts(a['c'][0])]
+                    if t['k'] == 'ref' and t['decl'].get('kind') == 'var':
+                        fetched.add(t['decl']['id'])
+        if not fetched:
+            continue
+        k = 0
+        for b, blk in sorted(F.blocks.items()):
+            t = blk.get('term') or {}
+            c = t.get('cond')
+            if c is None or len(blk['succs']) != 2:
+                continue
+            cn = F.ex[F.strip_casts(c)]
+            pol = True
+            while cn['k'] == 'un' and cn['op'] == '!':
+                pol = not pol
+                cn = F.ex[F.strip_casts(cn['c'][0])]
+            if cn['k'] != 'call' or cn['callee'].get('d') != 'ogg_page_bos':
+                continue
+            a = F.ex[F.strip_casts(cn['c'][0])]
+            if not (a['k'] == 'un' and a['op'] == '&' and F.ex[F.strip_casts(a['c'][0])].get('decl', {}).get('id') in fetched):
+                continue
+            start = blk['succs'][0 if pol else 1]
+            if start is None:
+                continue
+
+            def seekable_false(bb, si):
+                tb = F.blocks[bb].get('term') or {}
+                cc = tb.get('cond')
+                if cc is None or len(F.blocks[bb]['succs']) != 2:
+                    return True
+                cx = F.ex[F.strip_casts(cc)]
+                neg = False
+                while cx['k'] == 'un' and cx['op'] == '!':
+                    neg = not neg
+                    cx = F.ex[F.strip_casts(cx['c'][0])]
+                if cx['k'] == 'member' and cx['field'] == 'seekable':
+                    taken_true = (si == 0) != neg
+                    return taken_true          # the edge on which the handle is NOT seekable is not followed
+                return True
+
+            def is_ret(q):
+                # the end-of-file answer (OV_EOF): "nothing more here, carry on" -- an error return tells the caller to re-seek
+                qn = F.ex[q]
+                return qn['k'] == 'ret' and bool(qn.get('c')) and common.const_val(F, qn['c'][0]) == -2
+
+            def keeps(q):
+                qn = F.ex[q]
+                return qn['k'] == 'call' and qn['callee'].get('d') in KEEP
+            bad = cfg.search(F, (start, -1), is_ret, keeps, edge_ok=seekable_false)
+            n += 1
+            chk.ob(rule, F.name, f'first-page-of-a-link-kept#{k}', bad is None, F.where(c),
+                   'every path from the recognised first page to a return submits it, hands it to the header fetch or repositions the input'
+                   if bad is None else
+                   'a return is reachable with the first page of the next link consumed from the input and neither submitted nor put '
+                   'back: the caller that reads on loses that whole link', path=cfg.block_lines(F, bad) if bad else None)
+            k += 1
+    return n
+
 def run(chk, P):
     r19_7(chk, P)
     chk.floor('R19.7', 2)
@@ -678,6 +756,8 @@ def run(chk, P):
     chk.floor('R19.9', 8)
     r19_11(chk, P)
     chk.floor('R19.11', 3)
+    r19_12(chk, P)
+    chk.floor('R19.12', 1)
     from rules import c07
     import k3
     E = getattr(P, '_effects', None) or k3.Effects(P)
